@@ -43,7 +43,11 @@ RULE = {
            'prior cache contents: stale, extra, outdated-ctime, dot and left-over temp files; clock '
            'ticks; cache notifications; 2-6 synchronisations with random expected lists, '
            'check_existing on/off and, in ~45% of them, a fault or crash injected at an enumerated '
-           'step of one write_safe call) on the real EventMgr + fs.write_safe in a temp directory; '
+           'step of one write_safe call; ~15% of the synchronisations are a (re)start of the real '
+           'EventMgr.run(once=True), after which the children watch it registered keeps firing for later '
+           'placement changes - kazoo contract: a callback that returned False is never called again - and in '
+           '20% of those deliveries the connection is lost during the first manifest read: the service must '
+           'exit and its successor resynchronise) on the real EventMgr + fs.write_safe in a temp directory; '
            'non-trivial = one completed synchronisation both removed an extra file and wrote a '
            'missing one AND (a fault/crash was hit in a write OR a check_existing pass refreshed an '
            'outdated file); distinct = distinct op-list hash',
@@ -189,6 +193,18 @@ def gen_case(rng, pid, tier):
             # the event manager (re)starts over the surviving cache: the real `run()` decides what is
             # synchronised and how (the children watch fires with the placed instances)
             ops.append(['run', rng.random() < 0.8])
+            # ... and keeps running: later changes of the placement reach it through the children watch it
+            # registered (kazoo stops a watch whose callback returns False)
+            for _ in range(rng.randint(0, 3)):
+                if rng.random() < 0.7:
+                    for _ in range(rng.randint(1, 3)):
+                        a = rng.choice(univ)
+                        if rng.random() < 0.6:
+                            zk_setup(a)
+                        else:
+                            ops.append(['unplace', a])
+                            placed.discard(a)
+                ops.append(['watch'] if rng.random() < 0.8 else ['watchloss'])
         else:
             ops.append(['sync', rng.random() < 0.5, expected, fault])
     return {'ops': ops}
@@ -448,6 +464,11 @@ class _Runner:
                 self.sync(op)
             elif k == 'run':
                 self.run_glue(bool(op[1]))
+            elif k == 'watch':
+                self.watch_fires()
+            elif k == 'watchloss':
+                if self.watch_loss() == 'stop':
+                    break
         run.nontrivial = self.flags['full'] and (self.flags['hit'] or self.flags['refresh'])
 
     def run_glue(self, presence):
@@ -493,7 +514,10 @@ class _Runner:
                 return deco
 
             def ChildrenWatch(self, path, func):            # pylint: disable=invalid-name
-                func(runner.zk.get_children(path))
+                # kazoo calls the function at registration and on every change until it returns False
+                runner.app_watch = func
+                if func(runner.zk.get_children(path)) is False:
+                    runner.app_watch = None
 
             def exists(self, path, watch=None):
                 # the placement node of the host exists as soon as it has (or had) children; the harness keeps
@@ -501,9 +525,16 @@ class _Runner:
                 return True
 
             def get(self, path, watch=None):
+                if runner.loss_armed and path.startswith(z.path.scheduled('x')[:-1]):
+                    runner.loss_armed = False
+                    runner.loss_fired = True
+                    import kazoo.exceptions
+                    raise kazoo.exceptions.ConnectionLoss('injected')
                 return runner.zk.get(path, watch)
 
         first = [True]
+        self.last_presence = presence
+        self.app_watch = None       # the children watch the running service holds (None: none / stopped)
 
         def sync_w(_em, _zkclient, expected, check_existing=False):
             # the model is told what a start-up synchronisation is: the first one after a (re)start checks the
@@ -511,7 +542,7 @@ class _Runner:
             # with whatever the real glue passed
             spec = True if first[0] else bool(check_existing)
             first[0] = False
-            runner.sync(['sync', bool(check_existing), list(expected), None], spec_check=spec)
+            return runner.sync(['sync', bool(check_existing), list(expected), None], spec_check=spec)
 
         def notify_w(em_, ready):
             runner.real_notify(em_, ready)
@@ -522,12 +553,95 @@ class _Runner:
         ctx = mock.Mock()
         ctx.GLOBAL.zk.conn = _Zk()
         self.em.tm_env.watchdogs = mock.Mock()
-        with mock.patch.object(self.eventmgr, 'context', ctx), \
-                mock.patch.object(self.eventmgr.time, 'sleep', lambda _s: None), \
-                mock.patch.object(self.eventmgr.utils, 'exit_on_unhandled', lambda f: f), \
-                mock.patch.object(self.eventmgr.EventMgr, '_synchronize', sync_w), \
-                mock.patch.object(self.eventmgr.EventMgr, '_cache_notify', notify_w):
+
+        def patches():
+            return [mock.patch.object(self.eventmgr, 'context', ctx),
+                    mock.patch.object(self.eventmgr.time, 'sleep', lambda _s: None),
+                    mock.patch.object(self.eventmgr.utils, 'exit_on_unhandled', lambda f: f),
+                    mock.patch.object(self.eventmgr.EventMgr, '_synchronize', sync_w),
+                    mock.patch.object(self.eventmgr.EventMgr, '_cache_notify', notify_w)]
+        self.glue_patches = patches
+        ps = patches()
+        for p_ in ps:
+            p_.start()
+        try:
             self.em.run(once=True)
+        finally:
+            for p_ in reversed(ps):
+                p_.stop()
+
+    def watch_fires(self):
+        """The children of /placement/<host> changed (or not) and ZooKeeper notifies the watch the running
+        service registered.  kazoo's contract: a callback that returned False is not called again."""
+        run = self.run_
+        if getattr(self, 'glue_patches', None) is None:
+            return                      # no service running
+        children = self.zk.get_children(self.z.path.placement(HOST))
+        if self.app_watch is None:
+            # the watch is gone although the service runs: nothing will ever follow the placement again
+            have = sorted(n for n in self.snapshot() if not n.startswith('.'))
+            run.hits.append(fw.Hit(clause='placement-watch-stopped', call_site='EventMgr.run/_app_watch',
+                                   detail='the children watch returned False earlier and was stopped by kazoo; '
+                                          'placement now %r, cache %r' % (sorted(children), have)))
+            return
+        run.tags.add('watch-fired')
+        ps = self.glue_patches()
+        for p_ in ps:
+            p_.start()
+        try:
+            if self.app_watch(children) is False:
+                self.app_watch = None
+        finally:
+            for p_ in reversed(ps):
+                p_.stop()
+
+    loss_armed = False
+    loss_fired = False
+
+    def watch_loss(self):
+        """The watch fires for newly placed instances and the connection to ZooKeeper is lost while the first
+        manifest is read.  The exception must reach `exit_on_unhandled`: the service exits and its successor
+        synchronises from scratch (a re-established connection re-delivers nothing: the children are the same).
+        Injected only when the delivery has nothing to remove and the failing read is the first thing it does,
+        so that the interrupted delivery leaves no trace the model would have to know about."""
+        run = self.run_
+        if getattr(self, 'glue_patches', None) is None or self.app_watch is None:
+            return None
+        children = self.zk.get_children(self.z.path.placement(HOST))
+        visible = {n for n in self.snapshot() if not n.startswith('.')}
+        missing = [a for a in children if a not in visible and a in self.pl and a in self.man]
+        if (visible - set(children)) or not missing or len(set(children) - visible) != len(missing):
+            return self.watch_fires()
+        import kazoo.exceptions
+        ps = self.glue_patches()[:3]          # context, sleep, exit_on_unhandled: the real _synchronize runs
+        self.loss_armed, self.loss_fired = True, False
+        for p_ in ps:
+            p_.start()
+        try:
+            try:
+                self.app_watch(children)
+                exited = False
+            except kazoo.exceptions.ConnectionLoss:
+                exited = True
+        finally:
+            self.loss_armed = False
+            for p_ in reversed(ps):
+                p_.stop()
+        if not self.loss_fired:
+            return None
+        run.tags.add('connection-loss-in-delivery')
+        if exited:
+            # the service died on the unhandled exception and is restarted
+            self.glue_patches = None
+            self.app_watch = None
+            self.run_glue(self.last_presence)
+            return None
+        have = sorted(n for n in self.snapshot() if not n.startswith('.'))
+        run.hits.append(fw.Hit(clause='connection-loss-swallowed', call_site='EventMgr._cache',
+                               detail='the connection was lost while the manifest of a newly placed instance was '
+                                      'read and the service carried on: placement %r, cache %r; nothing will '
+                                      'deliver these children again' % (sorted(children), have)))
+        return 'stop'
 
     def sync(self, op, spec_check=None):
         run = self.run_
@@ -657,6 +771,7 @@ class _Runner:
             return real_cache(em, zkclient, app, check_existing=check_existing)
 
         outcome = 'ok'
+        sync_ret = None
         try:
             with mock.patch('os.stat', fake_stat), mock.patch('os.unlink', unlink_w), \
                     mock.patch('os.replace', replace_w), mock.patch('os.fchmod', fchmod_w), \
@@ -665,7 +780,7 @@ class _Runner:
                     mock.patch('treadmill.fs.write_safe', write_safe_w), \
                     mock.patch.object(self.eventmgr.EventMgr, '_cache', cache_w):
                 try:
-                    self.real_synchronize(self.em, self.zk, list(expected), check_existing=check)
+                    sync_ret = self.real_synchronize(self.em, self.zk, list(expected), check_existing=check)
                 except Crash:
                     outcome = 'crash'
                 except Boom:
@@ -731,3 +846,4 @@ class _Runner:
             run.tags.add('malformed-name')
         if outcome == 'ok' and extras and any(a in written for a in rec_missing):
             self.flags['full'] = True
+        return sync_ret
